@@ -539,6 +539,7 @@ def _driver(w, script, who):
                 w.submit(w.specs[step["pid"]], op, who)
             elif op in ("shutdown", "stop"):
                 rec = {"op": op, "by": who, "t_call": w.now()}
+                w.ev(None, "shutdown-call", by=who)
                 try:
                     w.runner.shutdown()
                     rec["result"] = "returned"
